@@ -470,6 +470,14 @@ func exclMaxIgnored(sp *spec.Spec, t *spec.Type, val *spec.Val, v any, depth int
 				return true
 			}
 		}
+	case spec.Union:
+		if alt, uv, ok := vtree.IsUnion(v); ok {
+			for _, a := range rt.Attrs {
+				if a.Name == alt && exclMaxIgnored(sp, a.Type, a.Val, uv, depth+1) {
+					return true
+				}
+			}
+		}
 	case spec.Array:
 		arr, _ := v.([]any)
 		for _, e := range arr {
